@@ -16,7 +16,8 @@ is an input (the parser is an oracle); the correspondence stream of `harness/pro
 
 A code string "starts on the node's first line" when there is no newline between the node's start `p` and the
 start `o` of the string: `countNL (slice s p o) = 0`.  For `${…}`, `<% %>` and control lines this holds by
-construction; for tag attributes and filter lists it is the guard of the `_partial` theorems (findings F7, F7b).
+construction; for tag attributes it is the guard of the `_partial` theorems (finding F7); filter lists of
+expressions carry their own offset since /repo 78adfd6 (finding F7b repaired) and need no guard.
 -/
 namespace MakoModel.C11
 open MakoModel.ErrPos MakoModel.Lexer MakoModel.Basic
@@ -159,34 +160,41 @@ theorem python_error_line_signature_counterexample :
     reportedLine .sigDef (lineOf (lit "<%def\n name=\"f(x=)\">") 0) (lit "f(x=)") 1 = some 1
     ∧ trueLine (lit "<%def\n name=\"f(x=)\">") 13 .sigDef (lit "f(x=)") 1 = 2 := by decide +kernel
 
-/-- **filter lists** `${… | raw}`: the lexer strips `raw` and `ArgumentList` gets no offset, so the reported line is
-    right exactly when the first filter (the stripped code string) starts on the line of `${`. -/
-theorem python_error_line_filter_partial (s : Str) (p o : Nat) (raw : Str) (k : Nat)
-    (hpo : p ≤ o) (hguard : countNL (slice s p (o + (wsPrefix raw).length)) = 0)
-    (hloc : slice s o (o + raw.length) = raw) (hcode : HasCode raw)
-    (hk : 1 ≤ k) (hkn : k ≤ countNL raw + 1) :
-    reportedLine .filter (lineOf s p) raw k = some ((trueLine s o .filter raw k : Nat) : Int) := by
-  have hw : (wsPrefix raw).length ≤ raw.length := (List.takeWhile_sublist _).length_le
-  have hsplit := slice_append s p o (o + (wsPrefix raw).length) hpo (by omega)
-  have h2 : slice s o (o + (wsPrefix raw).length) = wsPrefix raw := by
-    rw [slice_take s o _ raw.length hw, hloc, take_wsPrefix_length]
-  rw [← hsplit, countNL_append, h2] at hguard
-  have hlead : leadingBlankLines raw = 0 := by
-    rw [← leadingNL_eq_leadingBlankLines raw hcode]; omega
-  obtain ⟨pc, h1, h2'⟩ := offset_filter raw
-  exact reported_eq_true .filter s p o raw k pc k h1 (by simp only [rawLineOf, hlead]; omega) (by rw [h2']; simp) hpo
-    (by omega) hloc hk hkn
+/-- **filter lists** `${ e | raw }` (full strength since /repo 78adfd6): the lexer strips `raw` and hands
+    `ArgumentList` the number of newlines between `${` and the first filter (`escapesLinenoOffset e raw`), so the
+    reported line is right wherever the bar and the first filter are – on the line of `${`, on a later line, after
+    blank lines.  `p`: offset of `${`; `e`: the expression text up to the bar; `raw`: the text after the bar. -/
+theorem python_error_line_filter (s : Str) (p : Nat) (e raw : Str) (k : Nat)
+    (hopen : slice s p (p + 3 + e.length) = lit "${" ++ e ++ lit "|")
+    (hloc : slice s (p + 3 + e.length) (p + 3 + e.length + raw.length) = raw) (hcode : HasCode raw)
+    (hk : 1 ≤ k) (hkn : leadingBlankLines raw + k ≤ countNL raw + 1) :
+    reportedLine (.filter (escapesLinenoOffset e raw)) (lineOf s p) raw k
+      = some ((trueLine s (p + 3 + e.length) (.filter (escapesLinenoOffset e raw)) raw k : Nat) : Int) := by
+  have hd : countNL (slice s p (p + 3 + e.length)) = countNL e := by
+    rw [hopen, countNL_append, countNL_append]
+    have h1 : countNL (lit "${") = 0 := by decide
+    have h2 : countNL (lit "|") = 0 := by decide
+    omega
+  obtain ⟨pc, h1, h2⟩ := offset_filter (escapesLinenoOffset e raw) raw
+  refine reported_eq_true_at _ s p (p + 3 + e.length) raw k pc (leadingBlankLines raw + k) (countNL e) h1 rfl hd ?_
+    (by omega) hloc (by omega) hkn
+  rw [h2, escapesLinenoOffset_eq, leadingNL_eq_leadingBlankLines raw hcode]
+  push_cast
+  omega
 
-example : countNL (slice (lit "a\n${x |  f(1+)}") 2 (8 + (wsPrefix (lit "  f(1+)")).length)) = 0
-    ∧ HasCode (lit "  f(1+)") ∧ reportedLine .filter 2 (lit "  f(1+)") 1 = some 2 := by decide +kernel
+example : slice (lit "a\n${x\n |\n\n fl(1,\n 2+)}") 2 (2 + 3 + (lit "x\n ").length) = lit "${" ++ lit "x\n " ++ lit "|"
+    ∧ HasCode (lit "\n\n fl(1,\n 2+)")
+    ∧ escapesLinenoOffset (lit "x\n ") (lit "\n\n fl(1,\n 2+)") = 3
+    ∧ reportedLine (.filter 3) 2 (lit "\n\n fl(1,\n 2+)") 2 = some 6
+    ∧ trueLine (lit "a\n${x\n |\n\n fl(1,\n 2+)}") 8 (.filter 3) (lit "\n\n fl(1,\n 2+)") 2 = 6 := by decide +kernel
 
-/-- F7b: `${x` + newline + ` | f(1+)}`: reported on line 1, the filter is on line 2; and the same with the newline
-    after the bar. -/
-theorem python_error_line_filter_counterexample :
-    reportedLine .filter (lineOf (lit "${x\n | f(1+)}") 0) (lit " f(1+)") 1 = some 1
-    ∧ trueLine (lit "${x\n | f(1+)}") 6 .filter (lit " f(1+)") 1 = 2
-    ∧ reportedLine .filter (lineOf (lit "${x |\n f(1+)}") 0) (lit "\n f(1+)") 1 = some 1
-    ∧ trueLine (lit "${x |\n f(1+)}") 5 .filter (lit "\n f(1+)") 1 = 2 := by decide +kernel
+/-- regression witnesses of the repaired finding F7b (`${x` newline ` | f(1+)}` and `${x |` newline ` f(1+)}`:
+    the filter is on line 2 and is now reported there) -/
+theorem python_error_line_filter_regression :
+    reportedLine (.filter (escapesLinenoOffset (lit "x\n ") (lit " f(1+)"))) (lineOf (lit "${x\n | f(1+)}") 0) (lit " f(1+)") 1 = some 2
+    ∧ trueLine (lit "${x\n | f(1+)}") 6 (.filter 1) (lit " f(1+)") 1 = 2
+    ∧ reportedLine (.filter (escapesLinenoOffset (lit "x ") (lit "\n f(1+)"))) (lineOf (lit "${x |\n f(1+)}") 0) (lit "\n f(1+)") 1 = some 2
+    ∧ trueLine (lit "${x |\n f(1+)}") 5 (.filter 1) (lit "\n f(1+)") 1 = 2 := by decide +kernel
 
 /-- the arithmetic of `_adjust_lineno` and of `PythonCode` read back: the offset is the number of newlines in the
     whitespace `lstrip()` removes, which is the number of whitespace-only lines before the code (two independent
